@@ -7,6 +7,7 @@ mod irtext;
 mod offsets;
 mod visit;
 mod decode;
+mod dwarf;
 mod gen;
 mod opsx;
 mod out;
@@ -40,7 +41,7 @@ fn main() {
         i += 1;
     }
     let seed: u64 = std::env::var("VERIF_SEED").ok().and_then(|s| s.parse().ok()).unwrap_or(1);
-    out::quiet_panics();
+    if std::env::var("VERIF_LOUD").is_err() { out::quiet_panics(); }
     match suite {
         "arena" => arena::main(seed, &tier, only.as_deref()),
         "sections" => sections::main(seed, &tier, only.as_deref()),
@@ -50,6 +51,7 @@ fn main() {
         "builder" => builder::main(seed, &tier, only.as_deref()),
         "code" => code::main(seed, &tier, only.as_deref()),
         "offsets" => offsets::main(seed, &tier, only.as_deref()),
+        "dwarf" => dwarf::main(seed, &tier, only.as_deref()),
         "opsxtest" => {
             let u = opsx::universe(1);
             println!("supported plain ops {} typed {} unsupported {} cases {} untypable {:?}", u.supported_plain, u.typed, u.unsupported, u.cases.len(), u.untypable);
